@@ -54,6 +54,41 @@ Proof.
   intros Hs w be. apply same_content_view_graph, access_current. apply run3_VInv; [exact Hs|apply VInv_init].
 Qed.
 
+(** the cache works: right after an access of a (really existing) backend a second access hands out the SAME graph without
+    rebuilding, and changes nothing; so does every later access until a store method is called on that network *)
+Lemma access_cases w b be : backends w !! b = Some be →
+  (∃ snap, b_cache be = Some (getv (vers w) (b_net be), snap) ∧ access w b = (w, false, snap)) ∨
+  access w b = (W3 (w2 w) (vers w) (<[ b := BE (b_net be) (b_opts be)
+                                             (Some (getv (vers w) (b_net be), getn (nets (w2 w)) (b_net be))) ]> (backends w)),
+                true, getn (nets (w2 w)) (b_net be)).
+Proof.
+  intros Hbe. unfold access.
+  assert (getb (backends w) b = be) as -> by (unfold getb; by rewrite nth_lookup, Hbe).
+  destruct (b_cache be) as [[v snap]|] eqn:Hc; [|by right].
+  destruct (decide (v = getv (vers w) (b_net be))) as [->|Hne]; [left; eauto|by right].
+Qed.
+
+Lemma access_cached w b : (b < length (backends w))%nat →
+  (access (access w b).1.1 b).1.2 = false ∧ (access (access w b).1.1 b).2 = (access w b).2 ∧
+  (access (access w b).1.1 b).1.1 = (access w b).1.1.
+Proof.
+  intros Hb. destruct (lookup_lt_is_Some_2 _ _ Hb) as [be Hbe].
+  destruct (access_cases w b be Hbe) as [(snap & Hc & ->) | -> ]; cbn [fst snd].
+  - destruct (access_cases w b be Hbe) as [(snap' & Hc' & ->)|Hq]; [cbn; split_and!; congruence|].
+    exfalso. unfold access in Hq.
+    assert (getb (backends w) b = be) as Hg by (unfold getb; by rewrite nth_lookup, Hbe).
+    rewrite Hg, Hc, decide_True in Hq by done. congruence.
+  - set (s := getn (nets (w2 w)) (b_net be)). set (cur := getv (vers w) (b_net be)).
+    set (be1 := BE (b_net be) (b_opts be) (Some (cur, s))).
+    set (w1 := W3 (w2 w) (vers w) (<[ b := be1 ]> (backends w))).
+    assert (backends w1 !! b = Some be1) as Hb1 by (cbn; by apply list_lookup_insert).
+    destruct (access_cases w1 b be1 Hb1) as [(snap' & Hc' & ->)|Hq].
+    + cbn in Hc'. injection Hc' as <-. done.
+    + exfalso. unfold access in Hq.
+      assert (getb (backends w1) b = be1) as Hg by (unfold getb; by rewrite nth_lookup, Hb1).
+      rewrite Hg in Hq. cbn [b_cache be1 b_net vers w1] in Hq. fold cur in Hq. rewrite decide_True in Hq by done. congruence.
+Qed.
+
 (** what the abstraction [vproj] leaves out is exactly what the exports do not read: equal projections, equal graphs
     (species graph and bipartite graph with coefficients) *)
 Lemma vproj_bipartite (int_ : bool) s s' :
